@@ -360,8 +360,12 @@ pub fn net_oracles_validate(ctx: &mut Ctx, spec: &NetSpec, net: &mut Network, xs
                 desc.clone(), format!("loss {:e} acc {:e}", loss, acc), format!("loss {:e} acc {:e}", l2, a2));
         }
     }
-    if is(ctx, &["C12"]) && !train {
-        // recompute from predict and the objective, summed in input order
+    if is(ctx, &["C12"]) {
+        // recompute from predict and the objective, summed in input order; `predict` means the network's
+        // prediction (inference mode), so the flags are switched off for the recomputation and put back
+        if train {
+            net::set_all_training(net, false);
+        }
         let mut ls = Vec::new();
         let mut accs = Vec::new();
         let softmax = matches!(spec.builds.iter().rev().find_map(|b| match b { Build::Layer(InnerSpec::Dense { act, .. }) => Some(act.clone()), Build::Layer(_) | Build::Feedback { .. } => Some(String::new()), _ => None }), Some(a) if a == "softmax");
@@ -379,6 +383,9 @@ pub fn net_oracles_validate(ctx: &mut Ctx, spec: &NetSpec, net: &mut Network, xs
             };
             accs.push(a);
         }
+        if train {
+            net::set_all_training(net, true);
+        }
         let el = ls.iter().sum::<f32>() / ls.len() as f32;
         let ea = accs.iter().sum::<f32>() / accs.len() as f32;
         ctx.oracle(el.to_bits() == loss.to_bits() || (el.is_nan() && loss.is_nan()), "validate-loss-mean", "validate must return the arithmetic mean of the per-sample objective losses of predict",
@@ -386,6 +393,31 @@ pub fn net_oracles_validate(ctx: &mut Ctx, spec: &NetSpec, net: &mut Network, xs
         ctx.oracle(ea.to_bits() == acc.to_bits(), "validate-accuracy-mean", "validate must return the mean per-sample accuracy (arg-max agreement for soft-max, tolerance otherwise)",
             desc, format!("{:e}", acc), format!("{:e}", ea));
     }
+}
+
+/// C10: the reported parameter count counts every shared parameter once: it must equal the number of scalars
+/// actually held by the layers, with one repetition of every feedback block
+pub fn net_oracles_parameters(ctx: &mut Ctx, spec: &NetSpec, net: &Network) {
+    if !is(ctx, &["C10", "C08"]) {
+        return;
+    }
+    let reported = net::parameters_of(net);
+    let mut blocks = spec.builds.iter().filter_map(|b| match b { Build::Feedback { inner, .. } => Some(inner.len()), _ => None });
+    let mut count = 0usize;
+    for l in net.layers.iter() {
+        match l {
+            Layer::Feedback(f) => {
+                let len = blocks.next().unwrap_or(f.layers.len());
+                for il in f.layers.iter().take(len) {
+                    count += layer_params(il).iter().map(|v| v.len()).sum::<usize>();
+                }
+            }
+            other => count += layer_params(other).iter().map(|v| v.len()).sum::<usize>(),
+        }
+    }
+    ctx.oracle(reported == count.to_string(), "parameter-count",
+        "the reported parameter count must count every parameter once (one repetition of a feedback block)",
+        format!("{} parameters", clip(&spec.token(), 900)), reported, count.to_string());
 }
 
 fn argmax_last(v: &[f32]) -> usize {
